@@ -191,14 +191,17 @@ def run(scn):
         V = []
         where = {k: v for k, v in d.items()}
         where["explicit_output"] = scn["observer"]["output"] is not None
-        rejected = h.outcome.startswith("rejected") or h.outcome.startswith("raised")
+        stepped = bool(h.stages["S"] or h.stages["T"])
+        # an error raised after time steps were taken (e.g. a convergence failure) is not a
+        # rejection of the problem statement: the ill-posed problem was simulated
+        rejected = (h.outcome.startswith("rejected") or h.outcome.startswith("raised")) and not stepped
         fs = [e for e in h.fs_events]
         if not rejected and d["class"] == "unknown-terminal":
             # not in the property's list of ill-posed classes (a dict entry for an unknown
             # name is ignored by design); only the cleanliness of a rejection is checked
             h.probe("unknown-terminal-ignored")
         elif not rejected:
-            V.append(Violation("accepted", f"ill-posed problem ({d}) was simulated: solve() {h.outcome}", **where))
+            V.append(Violation("accepted", f"ill-posed problem ({d}) was simulated ({len(h.stages['S']) + len(h.stages['T'])} updates): solve() {h.outcome}", **where))
         else:
             if fs:
                 V.append(Violation("rejected-late", f"{h.exc[0]} raised only after file-system events {fs[:3]} ({d})", **where))
@@ -208,8 +211,6 @@ def run(scn):
                 V.append(Violation("left-behind", f"rejection left files/directories behind: new={sorted(new)[:4]} changed={changed[:4]}", **where))
             if h.h5_open_after != h.h5_open_before:
                 V.append(Violation("handle-leak", "HDF5 objects left open after a rejection", **where))
-            if h.stages["S"] or h.stages["T"]:
-                V.append(Violation("stepped-before-rejection", f"{len(h.stages['S']) + len(h.stages['T'])} updates ran before the rejection", **where))
         seen = set()
         Vd = [v for v in V if not (v["rule"] in seen or seen.add(v["rule"]))]
         h.probe("class:" + d["class"])
